@@ -283,6 +283,10 @@ func (p *pathCtx) path(e ast.Expr) string {
 	case *ast.UnaryExpr:
 		return x.Op.String() + p.path(x.X)
 	case *ast.BinaryExpr:
+		// comparisons with a constant (or nil) are written constant-last: `1 == x.T` and `x.T == 1` are one path
+		if flipped, isCmp := flipCmp[x.Op]; isCmp && p.isConstOperand(x.X) && !p.isConstOperand(x.Y) {
+			return "(" + p.path(x.Y) + " " + flipped.String() + " " + p.path(x.X) + ")"
+		}
 		return "(" + p.path(x.X) + " " + x.Op.String() + " " + p.path(x.Y) + ")"
 	case *ast.CallExpr:
 		var args []string
@@ -319,6 +323,13 @@ func (p *pathCtx) path(e ast.Expr) string {
 		return p.path(x.X) + ".(" + types.ExprString(x.Type) + ")"
 	}
 	return fmt.Sprintf("<%T>", e)
+}
+
+// pathCtxFor: canonical paths inside f with single-definition locals replaced by their definitions.
+func pathCtxFor(f *FuncRef) *pathCtx {
+	defs := newDefs(f.Pkg.TypesInfo)
+	defs.scan(f.Decl.Body)
+	return &pathCtx{info: f.Pkg.TypesInfo, defs: defs, root: f.Decl.Body}
 }
 
 func shortQual(p *types.Package) string { return shortPkg(p) }
@@ -704,4 +715,34 @@ func isKindTest(f *types.Func) bool {
 		}
 	}
 	return false
+}
+
+var flipCmp = map[token.Token]token.Token{token.EQL: token.EQL, token.NEQ: token.NEQ, token.LSS: token.GTR, token.GTR: token.LSS, token.LEQ: token.GEQ, token.GEQ: token.LEQ}
+
+func (p *pathCtx) isConstOperand(e ast.Expr) bool {
+	e = unparen(e)
+	if constOf(p.info, e) != nil {
+		return true
+	}
+	if id, ok := e.(*ast.Ident); ok && id.Name == "nil" {
+		_, isNil := p.info.Uses[id].(*types.Nil)
+		return isNil
+	}
+	return false
+}
+
+// defIdentIn: the identifier inside root that DEFINES obj (nil if obj is defined elsewhere). Positions of objects are
+// those of the original source; positions of nodes may be virtual (inline.go) — ask the tree, not the numbers.
+func defIdentIn(info *types.Info, root ast.Node, obj types.Object) *ast.Ident {
+	if root == nil || obj == nil {
+		return nil
+	}
+	var found *ast.Ident
+	ast.Inspect(root, func(n ast.Node) bool {
+		if id, ok := n.(*ast.Ident); ok && found == nil && info.Defs[id] == obj {
+			found = id
+		}
+		return found == nil
+	})
+	return found
 }
